@@ -3,6 +3,7 @@ package sym
 import (
 	"fmt"
 	"math/big"
+	"time"
 	"sort"
 	"strings"
 )
@@ -82,6 +83,13 @@ type Explorer struct {
 	Samples      []map[string]string
 	BudgetHit    bool
 	Guard        func(*Term) *Term
+	ArmGuards    func() []*Term
+	defs         []*Term
+	detPos       int
+	detCnt       int
+	Deadline     time.Time
+	Progress     func(string)
+	lastProgress time.Time
 	NoFork       int // >0 while speculating: any fork/assume/assert aborts the speculation
 }
 
@@ -116,6 +124,46 @@ func (e *Explorer) Input(name string, isBool bool) *Term {
 	return Var(name, isBool)
 }
 
+// FreshDet returns a variable whose name depends only on the position in the
+// decision trail, so that re-executions of the same path prefix re-create the
+// same variable.
+func (e *Explorer) FreshDet(prefix string, isBool bool) *Term {
+	if e.detPos != e.pos {
+		e.detPos, e.detCnt = e.pos, 0
+	}
+	e.detCnt++
+	return Var(fmt.Sprintf("%s!%d_%d", prefix, e.pos, e.detCnt), isBool)
+}
+
+// Define records an always-satisfiable definitional constraint about fresh
+// variables; it is asserted before the next solver interaction.
+func (e *Explorer) Define(c *Term) { e.defs = append(e.defs, c) }
+
+func (e *Explorer) flushDefs() {
+	if len(e.defs) == 0 || e.NoFork > 0 {
+		return
+	}
+	d := And(e.defs...)
+	e.defs = nil
+	e.Assume(d)
+}
+
+// DivTrunc returns Go's truncated quotient a/b for a symbolic divisor b != 0
+// using a fresh quotient/remainder pair instead of the SMT div operator.
+func (e *Explorer) DivTrunc(a, b *Term) *Term {
+	if b.Op == "int" {
+		return QuoTrunc(a, b)
+	}
+	q := e.FreshDet("q", false)
+	r := e.FreshDet("r", false)
+	zero := Int64(0)
+	absB := Ite(Ge(b, zero), b, Neg(b))
+	absR := Ite(Ge(r, zero), r, Neg(r))
+	sameSign := Or(Eq(r, zero), Eq(Ge(r, zero), Ge(a, zero)))
+	e.Define(Implies(Not(Eq(b, zero)), And(Eq(a, Add(Mul(q, b), r)), Lt(absR, absB), sameSign)))
+	return q
+}
+
 func (e *Explorer) Unsupp(format string, args ...interface{}) {
 	panic(&pathEnd{kind: "unsupported", reason: fmt.Sprintf(format, args...)})
 }
@@ -127,8 +175,20 @@ func (e *Explorer) Branch(c *Term, what string) bool {
 		return c.B
 	}
 	if e.NoFork > 0 {
+		// inside a speculated arm: a branch that is decided by the path
+		// condition and the arm guards needs no fork
+		if e.ArmGuards != nil && len(e.defs) == 0 {
+			gs := e.ArmGuards()
+			if r := e.S.CheckWith(append(gs, c)...); r == "unsat" {
+				return false
+			}
+			if r := e.S.CheckWith(append(gs, Not(c))...); r == "unsat" {
+				return true
+			}
+		}
 		panic(&specAbort{"fork inside arm: " + what})
 	}
+	e.flushDefs()
 	if e.pos < len(e.trail) {
 		t := &e.trail[e.pos]
 		if t.kind != 0 {
@@ -138,6 +198,13 @@ func (e *Explorer) Branch(c *Term, what string) bool {
 		return t.val == 1
 	}
 	e.Branches++
+	if !e.Deadline.IsZero() && e.Branches%64 == 0 && time.Now().After(e.Deadline) {
+		panic(&pathEnd{kind: "unsupported", reason: "time budget exhausted inside a path"})
+	}
+	if e.Progress != nil && time.Since(e.lastProgress) > 15*time.Second {
+		e.lastProgress = time.Now()
+		e.Progress(fmt.Sprintf("paths=%d branches=%d queries=%d trail=%d last=%s", e.Paths, e.Branches, e.S.Queries, len(e.trail), what))
+	}
 	r1 := e.S.CheckWith(c)
 	if r1 == "unsat" {
 		e.trail = append(e.trail, trailEntry{kind: 0, val: 0, forced: true, what: what})
@@ -182,6 +249,7 @@ func (e *Explorer) Assume(c *Term) {
 	if e.NoFork > 0 {
 		panic(&specAbort{"assume inside arm"})
 	}
+	e.flushDefs()
 	if c.Op == "bool" {
 		if !c.B {
 			panic(&pathEnd{kind: "infeasible"})
@@ -285,6 +353,7 @@ func (e *Explorer) addViolation(v Violation) {
 
 // FlushOverflow discharges the pending arithmetic-range obligations.
 func (e *Explorer) FlushOverflow() {
+	e.flushDefs()
 	if len(e.ovf) == 0 {
 		return
 	}
@@ -406,12 +475,19 @@ func (e *Explorer) Run(body func()) {
 	for {
 		e.pos = 0
 		e.ovf = nil
+		e.defs = nil
+		e.detPos, e.detCnt = -1, 0
 		e.pathInfo = nil
 		e.shows = nil
 		e.Paths++
 		e.runOne(body)
 		if len(e.Violations) >= e.MaxViolations {
 			e.Inconclusive = append(e.Inconclusive, "stopped after max violations")
+			break
+		}
+		if !e.Deadline.IsZero() && time.Now().After(e.Deadline) {
+			e.BudgetHit = true
+			e.Inconclusive = append(e.Inconclusive, fmt.Sprintf("time budget exhausted after %d paths", e.Paths))
 			break
 		}
 		if e.Paths >= e.MaxPaths {
